@@ -6,7 +6,7 @@ From Coq Require Import ZArith Reals List Lra Lia.
 From Dadi Require Import Base.Num Base.NumR Model.FromPhi Proofs.FromPhiBase Proofs.FromPhiMass1D Proofs.FromPhiLin
   Proofs.FromPhiND Proofs.FromPhiPaths Proofs.FromPhiSums Proofs.FromPhiProject Proofs.FromPhiMarg Proofs.FromPhiMore
   Proofs.FromPhiIntegral Proofs.FromPhiAdmix
-  Proofs.FromPhiMargK Proofs.FromPhiProjAnalytic Proofs.FromPhiBBConv.
+  Proofs.FromPhiMargK Proofs.FromPhiProjAnalytic Proofs.FromPhiBBConv Proofs.FromPhiInbF0.
 Import ListNotations.
 Local Open Scope R_scope.
 
@@ -230,3 +230,79 @@ Proof. exact partition_sum_is_power_coefficient. Qed.
 Theorem C05_betabinom_conv_partition_sums_to_one : forall n p (a b : R), rising (a + b) p <> 0 ->
   rsum (map (fun i => bbconv i n a b p) (seq 0 (S (n * p)))) = 1.
 Proof. exact bbconv_sum1. Qed.
+
+(** *** the inbreeding path as F -> 0+ (Proofs/FromPhiInbF0.v).
+    [risF a k F] = prod_{j<k} (a (1-F) + j F): a rising factorial with the 1/F cleared;
+    [Rker p v a0 b0 F] = C(p,v) risF a0 v F * risF b0 (p-v) F / risF (a0+b0) p F: an explicit rational function of F;
+    (a0, b0) = (x, 1-x) at the interior grid points, (1e-20, 1) and (1, 1e-20) at the two ends ([a0s], [b0s]: the code
+    overwrites alpha and beta there); [inb_fac_ext] = [inb_fac] with [Rker] in place of the beta-binomial weights (defined
+    at F = 0 too); [eff_freq xx] = a0/(a0+b0) per grid point = xx with its first entry replaced by 1e-20/(1+1e-20) and
+    its last by 1/(1+1e-20); [direct_fac_eff] / [direct_eff_ops] = the direct path with the binomial kernel read at
+    [eff_freq xx] (trapezoid weights and the ascertainment factor x(1-x) still on xx). *)
+(** for 0 < F < 1 every beta-binomial weight of the inbreeding kernel IS the rational function, whose denominator is
+    positive on [0,1) and which is continuous there *)
+Theorem C05_inbreeding_kernel_is_rational_in_F : forall (p v : nat) (a0 b0 : R), (v <= p)%nat -> 0 < a0 + b0 ->
+  (forall F, 0 < F < 1 -> betabinom p v (a0 * ((1 - F) / F)) (b0 * ((1 - F) / F)) = Rker p v a0 b0 F) /\
+  (forall F, 0 <= F < 1 -> 0 < risF (a0 + b0) p F /\ continuous (Rker p v a0 b0) F).
+Proof. exact inbreeding_kernel_is_rational_in_F. Qed.
+Print Assumptions C05_inbreeding_kernel_is_rational_in_F.
+(** ... hence the whole factor table of an axis, for any grid, n, ploidy, ascertainment *)
+Theorem C05_inbreeding_table_is_rational_in_F : forall het n pl (F : R) xx, 0 < F < 1 ->
+  inb_fac het n pl F xx = inb_fac_ext het n pl F xx.
+Proof. exact inb_fac_is_ext. Qed.
+
+(** at F = 0: the binomial kernel of the direct path -- C(p,v) x^v (1-x)^(p-v) at the interior points; in general at
+    q = a0/(a0+b0); the convolution over n/ploidy individuals is the binomial kernel of n chromosomes; the table of an
+    axis is the direct-path table at the effective frequencies *)
+Theorem C05_inbreeding_F_to_0_is_binomial :
+  (forall p v (x : R), (v <= p)%nat -> Rker p v x (1 - x) 0 = bker p v x) /\
+  (forall p v (a0 b0 : R), (v <= p)%nat -> 0 < a0 + b0 -> Rker p v a0 b0 0 = bker p v (a0 / (a0 + b0))) /\
+  (forall n pl (a0 b0 : R) i, pl <> 0%nat -> (n mod pl = 0)%nat -> 0 < a0 + b0 ->
+     nth i (ppow (tblF pl a0 b0 0) (n / pl)) 0 = bker n i (a0 / (a0 + b0))) /\
+  (forall het n pl xx, pl <> 0%nat -> (n mod pl = 0)%nat -> inb_fac_ext het n pl 0 xx = direct_fac_eff het n xx) /\
+  (forall xx, eff_freq xx = set_ends xx (tiny / (tiny + 1)) (1 / (1 + tiny))).
+Proof. exact inbreeding_F_to_0_is_binomial. Qed.
+Print Assumptions C05_inbreeding_F_to_0_is_binomial.
+
+(** every dimension, grid, phi, n, ploidy, ascertained axis: along ANY continuous path of inbreeding coefficients
+    (g_1(t), ..., g_d(t)) that starts at 0 and lies in (0,1) for small t > 0, every entry of the inbreeding spectrum tends,
+    as t -> 0+, to the entry of the direct path with the kernel read at the effective frequencies *)
+Theorem C05_inbreeding_path_tends_to_direct_path :
+  forall het ns pls (gs : list (R -> R)) xxs shape phi idx,
+  length ns = length shape -> length pls = length shape -> length gs = length shape -> length xxs = length shape ->
+  List.Forall (fun np => snd np <> 0%nat /\ (fst np mod snd np = 0)%nat) (combine ns pls) ->
+  length phi = prodl shape ->
+  List.Forall (fun g => continuous g 0 /\ g 0 = 0) gs ->
+  (exists delta, 0 < delta /\ forall t, 0 < t < delta -> List.Forall (fun g => 0 < g t < 1) gs) ->
+  filterlim (fun t => nth idx (nd (inb_ops het ns pls (map (fun g => g t) gs) xxs) shape phi) 0) (at_right 0)
+            (locally (nth idx (nd (direct_eff_ops het ns xxs) shape phi) 0)).
+Proof. exact inbreeding_path_tends_to_direct_path. Qed.
+Print Assumptions C05_inbreeding_path_tends_to_direct_path.
+(** one common F *)
+Theorem C05_inbreeding_common_F_tends_to_direct_path : forall het ns pls xxs shape phi idx,
+  length ns = length shape -> length pls = length shape -> length xxs = length shape ->
+  List.Forall (fun np => snd np <> 0%nat /\ (fst np mod snd np = 0)%nat) (combine ns pls) ->
+  length phi = prodl shape ->
+  filterlim (fun F => nth idx (nd (inb_ops het ns pls (repeat F (length shape)) xxs) shape phi) 0) (at_right 0)
+            (locally (nth idx (nd (direct_eff_ops het ns xxs) shape phi) 0)).
+Proof. exact inbreeding_common_F_tends_to_direct_path. Qed.
+(** the two ingredients: on (0,1)^d the model's operator list is the rational-function one; at 0 that one is the
+    direct path at the effective frequencies *)
+Theorem C05_inbreeding_ops_are_rational_and_direct_at_0 : forall het ns pls (Fs : list R) xxs,
+  (List.Forall (fun f => 0 < f < 1) Fs -> inb_ops het ns pls Fs xxs = inb_ext_ops het ns pls Fs xxs) /\
+  (List.Forall (fun f => f = 0) Fs -> length pls = length ns -> length Fs = length ns ->
+   List.Forall (fun np => snd np <> 0%nat /\ (fst np mod snd np = 0)%nat) (combine ns pls) ->
+   inb_ext_ops het ns pls Fs xxs = direct_eff_ops het ns xxs).
+Proof. exact inb_ops_rational_and_direct_at_0. Qed.
+
+(** the limit is the direct path only up to the 1e-20 the code writes at the two grid ends: not exactly ... *)
+Theorem C05_inbreeding_limit_is_not_exactly_direct_refuted :
+  exists (n : nat) (xx phi : list R) (i : nat),
+    nth i (fac_apply xx (direct_fac_eff false n xx) phi) 0 <> nth i (direct_ax false n xx phi) 0.
+Proof. exact limit_is_not_exactly_direct_refuted. Qed.
+(** ... but exactly where the density vanishes at the two end points (one axis, no ascertainment) *)
+Theorem C05_inbreeding_limit_is_direct_when_density_vanishes_at_ends : forall n xx (v : list R),
+  length v = length xx -> hd 0 v = 0 -> last v 0 = 0 ->
+  fac_apply xx (direct_fac_eff false n xx) v = direct_ax false n xx v.
+Proof. exact limit_is_direct_when_density_vanishes_at_ends. Qed.
+Print Assumptions C05_inbreeding_limit_is_direct_when_density_vanishes_at_ends.
